@@ -48,7 +48,13 @@ func main() {
 		if err := dec.Decode(&c); err != nil {
 			break
 		}
-		res := runOne(h, c)
+		hh := h
+		if name, ok := c["_h"].(string); ok {
+			if alt, ok := handlers[name]; ok {
+				hh = alt
+			}
+		}
+		res := runOne(hh, c)
 		res["id"] = c["id"]
 		enc.Encode(res)
 		w.Flush() // one line per case, so that a fatal crash leaves the finished cases readable
